@@ -10,5 +10,5 @@ trap 'cd /repo && git checkout -- pyxel' EXIT
 echo "== demo with change"; (cd /repo && PYTHONPATH=/repo timeout 300 /venv/bin/python -W ignore "$d/demo.py" >/tmp/demo_mut.log 2>&1; echo "rc=$?"; tail -2 /tmp/demo_mut.log)
 for c in "$@"; do
   echo "== check $c"
-  (cd /verif && timeout 900 ./check "$c" --tier quick 2>&1 | grep -E "VIOLATION|violation clause|KNOWN|HARNESS|tier=" | cut -c1-420)
+  (cd /verif && PYXSIM_EVIDENCE_DIR=/tmp/wt/eval_evidence timeout 900 ./check "$c" --tier quick 2>&1 | grep -E "VIOLATION|violation clause|KNOWN|HARNESS|tier=" | cut -c1-420)
 done
